@@ -38,6 +38,31 @@ package sema
 //@ schema fixlit(N=Fix128, S=24, MIN=-pow2(127), MAX=pow2(127)-1, UNSIGNED=false)
 //@ schema fixlit(N=UFix128, S=24, MIN=0, MAX=pow2(128)-1, UNSIGNED=true)
 
+// The same function for an integer target type (a fixed-point literal passed where an integer is expected: only the
+// integer part is range-checked): accepted exactly when +-integer lies within the type's bounds; the literal's own
+// big.Int values are not written (frame obligation: the expression is evaluated later from the same AST node).
+// (the fixed-point branch of the type switch is excluded by the precondition; its interface calls only need a shape)
+//@ iface FractionalRangedType.Scale
+//@   assumed
+//@   nofail
+//@ iface FractionalRangedType.MinFractional
+//@   assumed
+//@   nofail
+//@ iface FractionalRangedType.MaxFractional
+//@   assumed
+//@   nofail
+//@ func CheckFixedPointLiteral @integer
+//@   callghost CheckRange.F = 1
+//@   props C40
+//@   option opaquecalls=noop
+//@   requires expression != nil && expression.UnsignedInteger != nil && big(expression.UnsignedInteger) >= 0
+//@   requires targetType != nil && implements(targetType, IntegerRangedType) && !implements(targetType, FractionalRangedType)
+//@   let v = ite(expression.Negative, -1, 1) * big(expression.UnsignedInteger)
+//@   nofail
+//@   env MemoryMeteringError
+//@   ensures[C40] iff(result, (ghostof(targetType, "hasmin") == 0 || v >= ghostof(targetType, "min")) && (ghostof(targetType, "hasmax") == 0 || v <= ghostof(targetType, "max")))
+//@   ensures[C40] big(expression.UnsignedInteger) == old(big(expression.UnsignedInteger))
+
 // ---- C51: source positions of the checker's occurrence index, ordered lexicographically by (line, column); the
 // contract of Compare is the interface contract intervalst.Position.Compare (proved here for this implementor).
 //@ needs C51
